@@ -39,6 +39,20 @@ func registerExt(eng *liquid.Engine) {
 	})
 	// ExpandTagArg
 	eng.RegisterTag("lqx_expand", func(c render.Context) (string, error) { return c.ExpandTagArg() })
+	// a tag that renders another template of its own (as an "embed" tag of a site generator does) and hands back that
+	// render's error, wrapped: the failure is this tag's, in this template
+	eng.RegisterTag("lqx_sub", func(c render.Context) (string, error) {
+		sub := liquid.NewEngine()
+		out, err := sub.ParseTemplateLocation([]byte("a\n{{ 1 | no_such_filter }}"), "elsewhere/sub.liq", 40)
+		if err != nil {
+			return "", fmt.Errorf("lqx_sub: %w", err)
+		}
+		s, rerr := out.RenderString(nil)
+		if rerr != nil {
+			return "", fmt.Errorf("lqx_sub: %w", rerr)
+		}
+		return s, nil
+	})
 	// Errorf
 	eng.RegisterTag("lqx_fail", func(c render.Context) (string, error) { return "", c.Errorf("lqx: %s", c.TagArgs()) })
 	// SourceFile, RenderFile
